@@ -1,7 +1,7 @@
 #!/usr/bin/env python3
 """translate_imp.py - fail-closed translator for the small IMPERATIVE methods that mutate the dictionaries of CFDivisor / CFGraph
 (lending_move, borrowing_move, chip_transfer, set_fire, is_effective, get_degree; add_edge, get_valence, is_loopless;
-CFiringScript.get_firings / set_firings / update_firings; CFConfig.get_out_degree_S) to Gallina.
+CFiringScript.get_firings / set_firings / update_firings; CFConfig.get_out_degree_S; CFOrientation.set_orientation) to Gallina.
 Writes coq/theories/TranslatedImpCFDivisor.v and TranslatedImpCFGraph.v (one file per class, so that a method that leaves the subset only
 affects the property that speaks about its class) from /repo's CURRENT source on every run; Link/ImpLink.v proves that each translated method, run on a
 dictionary state that represents a model state, raises exactly when the model refuses and otherwise ends in a state representing the model's
@@ -17,7 +17,9 @@ Assumed semantics (the trusted part of this tie, restated in Base/PyDict.v):
     what the caller's object looks like after the exception; a normal end is `PyOk result`;
 Subset (anything else raises Unsupported and the run fails closed): see the methods stmt/expr below - assignments to locals, `x, y = (a, b)`,
 `if/else`, `raise`, `return e`, `for k in d`, `for k, v in d.items()`, `for x in <set>`, `s.add(x)`, `self.f[k] op= e`, `self.f[a][b] (op)= e`,
-`self.f op= e`, calls of already translated methods on self, and the early-exit loop `for ..: if c: return CONST`."""
+`self.f (op)= e`, conditional expressions, the members of the enum OrientationState (read from the source: distinct integer constants),
+calls of already translated methods on self, and the early-exit loop `for ..: if c: return CONST`. An `if` whose branches only update state and which
+is followed by more statements is translated as `match (if c then A else B) with ...` so that the continuation appears once."""
 import ast, sys, os
 REPO = os.environ.get("CF_REPO", "/repo")
 OUT = os.path.join(os.path.dirname(os.path.abspath(__file__)), "..", "coq", "theories", "TranslatedImp.v")     # directory of the generated files TranslatedImp<Class>.v
@@ -27,7 +29,10 @@ FIELDS = {
     "CFGraph": {"self.graph": ("self_graph", "dictD"), "self.vertex_total_valence": ("self_vertex_total_valence", "dictZ"), "self.total_valence": ("self_total_valence", "Z")},
     "CFiringScript": {"self._script": ("self_script", "dictZ"), "self.graph.vertices": ("self_graph_vertices", "set")},
     "CFConfig": {"self.graph.graph": ("self_graph_graph", "dictD"), "self.graph.vertices": ("self_graph_vertices", "set"), "self.q_vertex": ("self_q_vertex", "key")},
+    "CFOrientation": {"self.orientation": ("self_orientation", "dictD"), "self.graph.graph": ("self_graph_graph", "dictD"), "self.in_degree": ("self_in_degree", "dictZ"),
+                      "self.out_degree": ("self_out_degree", "dictZ"), "self.is_full": ("self_is_full", "bool"), "self.is_full_checked": ("self_is_full_checked", "bool")},
 }
+ENUMS = {}     # "OrientationState.NAME" -> int, read from the source of the enum class
 TARGETS = [
     ("chipfiring/CFDivisor.py", "CFDivisor", "is_effective"), ("chipfiring/CFDivisor.py", "CFDivisor", "get_degree"),
     ("chipfiring/CFDivisor.py", "CFDivisor", "lending_move"), ("chipfiring/CFDivisor.py", "CFDivisor", "borrowing_move"),
@@ -36,6 +41,7 @@ TARGETS = [
     ("chipfiring/CFiringScript.py", "CFiringScript", "get_firings"), ("chipfiring/CFiringScript.py", "CFiringScript", "set_firings"),
     ("chipfiring/CFiringScript.py", "CFiringScript", "update_firings"),
     ("chipfiring/CFConfig.py", "CFConfig", "get_out_degree_S"),
+    ("chipfiring/CFOrientation.py", "CFOrientation", "set_orientation"),
 ]
 class Unsupported(Exception): pass
 def bad(node, why=""): raise Unsupported("%s at line %s: %s" % (type(node).__name__, getattr(node, "lineno", "?"), why))
@@ -45,6 +51,8 @@ def ann_type(a):
     if s == "int": return "Z"
     if s == "str": return "key"
     if s == "bool": return "bool"
+    if s == "Vertex": return "key"
+    if s == "OrientationState": return "Z"
     if s in ("Set[str]", "typing.Set[str]", "typing.Set[typing.str]"): return "set"
     raise Unsupported("annotation " + s)
 DONE = {}      # (cls, name) -> Fn, in translation order
@@ -72,6 +80,11 @@ class Fn:
         if isinstance(e, ast.Name):
             if e.id not in self.env: bad(e, "unknown name " + e.id)
             return e.id, self.env[e.id]
+        if isinstance(e, ast.Attribute) and ast.unparse(e) in ENUMS: return "%d" % ENUMS[ast.unparse(e)], "Z"
+        if isinstance(e, ast.IfExp):
+            n0 = len(self.pending); c, tc = self.expr(e.test); a, ta = self.expr(e.body); b, tb = self.expr(e.orelse)
+            if tc != "bool" or ta != tb or len(self.pending) != n0: bad(e, "conditional expression")
+            return "(if %s then %s else %s)" % (c, a, b), ta
         f = self.field(e) if isinstance(e, ast.Attribute) else None
         if f: return f
         if isinstance(e, ast.Attribute) and e.attr == "name":
@@ -223,6 +236,11 @@ class Fn:
                 self.env[tg.id] = ty; body = K(); self.pending = pre
                 return self.wrap("let %s := %s in\n  %s" % (tg.id, t, body))
             if isinstance(tg, ast.Subscript): return self.store(s, tg, None, s.value, K)
+            if isinstance(tg, ast.Attribute) and self.field(tg) and self.field(tg)[1] in ("Z", "bool"):
+                f = self.field(tg, write=True); t, ty = self.expr(s.value)
+                if ty != f[1]: bad(s, "field %s assigned a value of type %s" % (f[0], ty))
+                pre = self.pending; self.pending = []; body = K(); self.pending = pre
+                return self.wrap("let %s := %s in\n  %s" % (f[0], t, body))
         if isinstance(s, ast.AugAssign) and isinstance(s.op, (ast.Add, ast.Sub)):
             op = "+" if isinstance(s.op, ast.Add) else "-"
             if isinstance(s.target, ast.Subscript): return self.store(s, s.target, op, s.value, K)
@@ -254,6 +272,25 @@ class Fn:
                 body = K(); self.pending = pre
                 if not callee.can_raise: return self.wrap("let %s := %s_%s %s in\n  %s" % (self.state_tuple(callee.writes), self.cls, c.func.attr, " ".join(args), body))
                 return self.wrap("match %s_%s %s with PyExn %s => EXN_ | PyOk %s =>\n  %s end" % (self.cls, c.func.attr, " ".join(args), self.state_tuple(callee.writes), self.state_tuple(callee.writes), body))
+        if isinstance(s, ast.If) and rest and not any(isinstance(n, (ast.Return, ast.Raise, ast.For)) for n in ast.walk(s)) and self.assigned(s.body + s.orelse):
+            # branches that only update state, followed by more statements: evaluate the branch, then continue ONCE (no duplication of the continuation)
+            c, tc = self.expr(s.test)
+            if tc != "bool": bad(s, "condition of type " + tc)
+            vs = self.assigned(s.body + s.orelse)
+            for v in vs:
+                if v in [f[0] for f in FIELDS[self.cls].values()]:
+                    if v not in self.writes: self.writes.append(v)
+                    if v not in self.reads: self.reads.append(v)
+                elif v not in self.env: bad(s, "a local first assigned inside a branch: " + v)
+            pre = self.pending; self.pending = []; st = self.state_tuple(vs); env0 = dict(self.env)
+            a = self.stmts(s.body, lambda: "JOIN_"); self.env = dict(env0)
+            b = self.stmts(s.orelse, lambda: "JOIN_") if s.orelse else "JOIN_"; self.env = env0
+            body = K(); self.pending = pre
+            pat = ("'%s" % st) if len(vs) > 1 else st
+            if "EXN_" in a or "EXN_" in b or "PyExn" in a or "PyExn" in b:
+                self.can_raise = True
+                return self.wrap("match (if %s then\n  %s\n  else\n  %s) with PyExn e_ => PyExn e_ | PyOk %s =>\n  %s end" % (c, a.replace("JOIN_", "PyOk %s" % st), b.replace("JOIN_", "PyOk %s" % st), st, body))
+            return self.wrap("let %s := (if %s then\n  %s\n  else\n  %s) in\n  %s" % (pat, c, a.replace("JOIN_", st), b.replace("JOIN_", st), body))
         if isinstance(s, ast.If):
             c, tc = self.expr(s.test)
             if tc != "bool": bad(s, "condition of type " + tc)
@@ -349,9 +386,21 @@ def check_alias(tree, cls, alias, name):
     c = [n for n in tree.body if isinstance(n, ast.ClassDef) and n.name == cls][0]
     return any(isinstance(n, ast.Assign) and ast.unparse(n) == "%s = %s" % (alias, name) for n in c.body)
 
+def read_enums():
+    """OrientationState: the members must be distinct integer constants (only == / != on them is translated)"""
+    try:
+        tree = ast.parse(open(os.path.join(REPO, "chipfiring/CFOrientation.py")).read())
+        c = [n for n in tree.body if isinstance(n, ast.ClassDef) and n.name == "OrientationState"][0]
+        vals = {}
+        for n in c.body:
+            if isinstance(n, ast.Assign) and len(n.targets) == 1 and isinstance(n.targets[0], ast.Name) and isinstance(n.value, ast.Constant) and type(n.value.value) is int:
+                vals["OrientationState." + n.targets[0].id] = n.value.value
+        if len(set(vals.values())) == len(vals) and set(vals) == {"OrientationState.NO_ORIENTATION", "OrientationState.SOURCE_TO_SINK", "OrientationState.SINK_TO_SOURCE"}: ENUMS.update(vals)
+    except Exception: pass
 def main():
     failed = []
-    for cls in ("CFDivisor", "CFGraph", "CFiringScript", "CFConfig"):
+    read_enums()
+    for cls in ("CFDivisor", "CFGraph", "CFiringScript", "CFConfig", "CFOrientation"):
         out_path = os.path.join(os.path.dirname(OUT), "TranslatedImp%s.v" % cls)
         try:
             out = ["(* GENERATED on every run by tools/translate_imp.py from the current source in %s. Do not edit. *)" % REPO,
